@@ -11,12 +11,15 @@ TRUSTED = sc.TRUSTED
 ASSUMPTIONS = sc.ASSUMPTIONS + ['the cooperative peer answers at once (zero connect time in virtual time); states with two live '
                                 'connections (known finding C12-retry-while-connecting) are excluded from the recovery bound']
 M = sc.ALL_MSGS
-MSGS = ['open_ok', 'open_hold1', 'open_badver', 'open_wrongas', 'keepalive', 'update_bad', 'notif_version',
+MSGS = ['open_ok', 'open_hold3', 'open_hold1', 'open_badver', 'open_wrongas', 'keepalive', 'update_bad', 'notif_version',
         'notif_cease', 'bad_marker', 'bad_len_zero', 'unknown_type']
 
 
 def live(c):
     return c[0] == 0 or (c[0] == 1 and not c[1])
+
+
+OPENS_SENT = []
 
 
 def cooperate(d, kw, limit_s, open_name='open_ok'):
@@ -52,7 +55,10 @@ def cooperate(d, kw, limit_s, open_name='open_ok'):
             if not due:
                 return events, None
             e = ('fire', due[0])
-        d.apply(e)
+        r = d.apply(e)
+        for o in r[1]:
+            if o[0] == 1 and o[2] and o[2][0] == 1:
+                OPENS_SENT.append(o[2][2])      # hold time of an OPEN the agent wrote during the continuation
         events.append(e)
     return events, None
 
@@ -135,9 +141,21 @@ def run(ctx):
             # continued that way when the history already contains an OPEN of the old identifier
             had_open = any(e[0] == 'data' and sc.name_of(e)[-1].startswith('open') for e in path)
             open_name = 'open_ok_id2' if (had_open and n % 2 == 0) else 'open_ok'
+            del OPENS_SENT[:]
             ev1, t_est = cooperate(d, kw, limit, open_name)
             if t_est is None:
                 viol.append({'what': 'cooperative peer: not Established within idle_hold + connect_retry + 1 = %d s' % limit,
+                             'config': kw, 'events': [sc.name_of(x) for x in path], 'peer_open': open_name,
+                             'continuation': [sc.name_of(x) for x in ev1], 'known': None})
+                continue
+            # nothing in the past changes what the next session is offered and gets: every OPEN written during the
+            # recovery carries the CONFIGURED hold time, and the session runs with min(configured, the peer's 90 s)
+            cfg_h = kw.get('hold_time', 180)
+            bad_open = [h for h in OPENS_SENT if h != cfg_h]
+            peer_opened = any(e[0] == 'data' and e[2] == M[open_name] for e in ev1)
+            if bad_open or (peer_opened and d.state()[1] != min(cfg_h, 90)):
+                viol.append({'what': 'the session after recovery is not the configured one: OPEN hold times sent %r (configured %d), '
+                                     'negotiated hold %r (expected %d)' % (OPENS_SENT, cfg_h, d.state()[1], min(cfg_h, 90)),
                              'config': kw, 'events': [sc.name_of(x) for x in path], 'peer_open': open_name,
                              'continuation': [sc.name_of(x) for x in ev1], 'known': None})
                 continue
